@@ -36,32 +36,7 @@ def main() -> None:
 }
 
 
-def evaluate(src):
-    from vlib import pyref, runner
-
-    try:
-        ref, pan = pyref.run_ref(src)
-    except pyref.RefTooLong:
-        return "toolong", None, None
-    except BaseException as e:  # noqa: BLE001
-        return "generr", None, f"pyref raised {e!r}"
-    out, lm = runner.run_source(runner.PRELUDE + src, n_qubits=4)
-    if lm is not None:
-        lm.dispose()
-    if out.kind in ("rejected", "crash", "invalid"):
-        return "outside", f"{out.kind}:{out.title}", out.message[-1500:]
-    if out.kind == "unsupported":
-        return "unsupported", out.title, out.message[:300]
-    got_pan = out.message if out.kind == "panic" else None
-    if (got_pan is None) != (pan is None):
-        return "mismatch", "panic", f"panic: emulator {got_pan!r} vs Python {pan!r}; streams {out.stream} / {ref}"
-    if pan is not None and pan not in got_pan:
-        return "mismatch", "panic.message", f"{got_pan!r} vs {pan!r}"
-    if not pyref.streams_equal(out.stream, ref):
-        i, a, b = pyref.first_diff(out.stream, ref)
-        kind = "count" if sorted(map(str, out.stream)) != sorted(map(str, ref)) else "order"
-        return "mismatch", kind, f"result #{i}: emulator {a} vs Python {b}\n emulator: {out.stream}\n python:   {ref}"
-    return "ok", None, None
+from vlib.effects_eval import evaluate  # noqa: E402
 
 
 def replay(case):
